@@ -212,6 +212,7 @@ package sem
 //@   ensures [C06.release] coreCmp(v, ver) == 0 && v.PreRelease != "" && ver.PreRelease == "" ==> result == -1
 //@   ensures [C14.range] -1 <= result && result <= 1
 //@   ensures [C14.eq] coreCmp(v, ver) == 0 && v.PreRelease == ver.PreRelease ==> result == 0
+//@   ensures [C06.prec] coreCmp(v, ver) == 0 ==> result == DefaultComparePreRelease(v.PreRelease, ver.PreRelease)
 
 //@ func (Ver).Latest
 //@   ensures [C14.latest] result == ite(v.Compare(ver) == -1, ver, v)
@@ -285,6 +286,17 @@ func lemmaC14Next(v Ver) (int, int, int) {
 
 func lemmaC14LatestNeverLower(v, w Ver) (l Ver, c int) {
 	return v.Latest(w), v.Compare(w)
+}
+
+// the order of two versions: by core, then (section 11) by pre-release; build metadata plays no part
+//@ func lemmaC06Version
+//@   lemma
+//@   requires claimed11(v.PreRelease, w.PreRelease) && claimed11(w.PreRelease, v.PreRelease)
+//@   ensures [C06.prec C06.core] r == ite(coreCmp(v, w) != 0, coreCmp(v, w), prec11(v.PreRelease, w.PreRelease))
+
+func lemmaC06Version(v, w Ver) (r int) {
+	lemmaC06Precedence(v.PreRelease, w.PreRelease)
+	return v.Compare(w)
 }
 
 func lemmaC06Ordered(a, b string) (r int) {
